@@ -21,10 +21,10 @@ class Run:
             return "timeout"
         if "ERROR: AddressSanitizer" in self.err:
             i = self.err.index("ERROR: AddressSanitizer")
-            return self.err[i:i + 300].replace("\n", " | ")
+            return self.err[i:i + 1200].replace("\n", " | ")
         if "ERROR: LeakSanitizer" in self.err:
             i = self.err.index("ERROR: LeakSanitizer")
-            return self.err[i:i + 400].replace("\n", " | ")
+            return self.err[i:i + 1500].replace("\n", " | ")
         if "runtime error:" in self.err:
             i = self.err.index("runtime error:")
             return self.err[max(0, i - 120):i + 200].replace("\n", " | ")
@@ -59,6 +59,14 @@ def crash_key(why):
     m = re.search(r"([\w./-]+\.c):\d+: (?:[\w \*]+? )?\**(\w+)\(.*?Assertion", why)
     if m:
         return "crash:%s:%s:assert" % (m.group(1).split("/")[-1], m.group(2))
+    if "LeakSanitizer" in why:
+        # where the first leaked block was allocated: first frame inside the library proper (not the allocator
+        # wrappers, not the harness)
+        fr = [x for x in re.findall(r"#\d+ 0x[0-9a-f]+ in (\w+) [^|]*?([\w.]+\.[cyl]):\d+", why)
+              if not x[0].startswith("__") and "dec_drv" not in x[1] and "ckd_alloc" not in x[1] and x[0] != "main"]
+        if fr:
+            return "leak:%s:%s" % (fr[0][1], fr[0][0])
+        return "leak:unknown-site"
     m = re.search(r"ERROR: (AddressSanitizer|LeakSanitizer): ([\w-]+)", why)
     if m:
         fr = re.search(r"#\d+ 0x[0-9a-f]+ in (\w+) [^\n|]*?/src/([\w/]+\.c)", why)
